@@ -126,9 +126,9 @@ var userFuns = map[string]func() *val.Val{
 	},
 	"U_GLIST": func() *val.Val {
 		a := types.TyVar("a")
-		return val.Fun(types.Fun("g", []*types.Type{types.List(a)}, types.Num), func(args ...*val.Val) *val.Val {
+		return val.Fun(types.Fun("g", []*types.Type{types.List(a)}, types.Str), func(args ...*val.Val) *val.Val {
 			logCall("U_GLIST", args)
-			return val.Num(2)
+			return val.Str("L")
 		})
 	},
 	"U_GNUM": func() *val.Val {
